@@ -43,8 +43,9 @@ ASSUMPTIONS = [
     'code under test; MessageLogger._instance is replaced at the top of every parse',
     'the two carve-outs of the statement are decided from the input text alone: "/**" alone on the first line; no '
     'line that starts (after the asterisk) with a deprecated tag-style annotation word followed by a colon',
-    'an internal exception converted by the documented catch-all of parse_comment_blocks into the "please file a '
-    'bug" error is not a violation (counted with label catch-all-hit)',
+    'an internal exception converted by the catch-all of parse_comment_blocks into the "please file a bug" error IS a '
+    'violation: the whole block is dropped, so the malformed annotation was not merely ignored (this was tolerated until the one '
+    'shape that reached it on the unchanged tree, a valueless (copy-func)/(free-func), was repaired in /repo)',
     'scanner_main is driven with create_source_scanner/write_output replaced and a stub giscanner._giscanner '
     'module; one constant symbol keeps the namespace non-empty',
     'two shapes found on the unchanged tree are excluded from the position oracle by construction and counted '
@@ -340,8 +341,12 @@ def common_oracles(x, ctx, pick=0, strict=False):
     if [_rec_key(r) for r in lgt.records] != [_rec_key(r) for r in recs]:
         raise Violation('diagnostics-differ-between-neighbours',
                         'alone %r, between neighbours %r for X=%r' % (recs, lgt.records, x))
-    if any(r['text'].startswith('unrecoverable parse error') for r in recs):
+    hit = [r for r in recs if r['text'].startswith('unrecoverable parse error')]
+    if hit:
+        # the catch-all of parse_comment_blocks turns an internal exception into "please file a bug" and drops the
+        # WHOLE block: the malformed annotation was not "ignored", everything else the block said is lost with it
         ctx.label('catch-all-hit')
+        raise Violation('internal-exception-drops-the-block', '%s for X=%r' % (hit[0]['text'][:300], x))
     if any(r['type'] == MSG.FATAL for r in recs):
         raise Violation('fatal-diagnostic', 'fatal diagnostic %r for X=%r' % (recs, x))
 
@@ -756,7 +761,7 @@ def health(agg, tier):
     ev = max(1, agg['evals'])
     probs = []
     for lab, frac in (('diagnostics-produced', 0.3), ('block-survived', 0.3), ('marker-checked', 0.15),
-                      ('catch-all-hit', 0.0005), ('carveout:start-not-alone', 0.01),
+                      ('carveout:start-not-alone', 0.01),
                       ('carveout:deprecated-tagstyle', 0.01), ('half:ignored-checked', 0.02),
                       ('shift:checked', 0.02), ('main:nonzero', 0.002), ('main:zero', 0.0005),
                       ('one-line-block', 0.002), ('kind_text', 0.05), ('base_fixture', 0.1), ('base_model', 0.1)):
